@@ -76,7 +76,7 @@ fn build_rules(x: &X) -> Option<Result<Cors, ()>> {
 // ---------------------------------------------------------------------------------------------
 // (a) direct calls
 // ---------------------------------------------------------------------------------------------
-/// input: (L rules (L (L method uri (L origin?)) ...)); output (L (N 0) (L res...)),
+/// input: (L rules (L (L method scheme authority path (L origin?)) ...)); output (L (N 0) (L res...)),
 /// res = (L) | (L (L methods (L header...) secs nanos)), methods = (L) all | (L (L m...))
 fn check(x: &X) -> X {
     let l = match x.as_l() {
@@ -91,14 +91,18 @@ fn check(x: &X) -> X {
     let mut out = Vec::new();
     for p in match l[1].as_l() { Some(p) => p, None => return X::bad() } {
         let p = match p.as_l() {
-            Some(p) if p.len() == 3 => p,
+            Some(p) if p.len() == 5 => p,
             _ => return X::bad(),
         };
-        let (m, u, o) = match (p[0].as_b(), p[1].as_b(), p[2].as_opt()) {
-            (Some(m), Some(u), Some(o)) => (m, u, o),
+        let (m, sch, au, pa, o) = match (p[0].as_b(), p[1].as_b(), p[2].as_b(), p[3].as_b(), p[4].as_opt()) {
+            (Some(m), Some(s), Some(a), Some(pa), Some(o)) => (m, s, a, pa, o),
             _ => return X::bad(),
         };
-        let mut b = match (Method::from_bytes(m), Uri::try_from(u)) {
+        let mut u = sch.to_vec();
+        u.extend_from_slice(b"://");
+        u.extend_from_slice(au);
+        u.extend_from_slice(pa);
+        let mut b = match (Method::from_bytes(m), Uri::try_from(&u[..])) {
             (Ok(m), Ok(u)) => Request::builder().method(m).uri(u),
             _ => return ood(),
         };
